@@ -25,7 +25,7 @@ func VerifResetResolverCaches() {
 
 	globalDisqualifyCache.Lock()
 	globalDisqualifyCache.children = nil
-	globalDisqualifyCache.dq = nil
+	globalDisqualifyCache.entries = nil
 	globalDisqualifyCache.Unlock()
 
 	parsedVersions.Range(func(k, _ any) bool { parsedVersions.Delete(k); return true })
@@ -70,7 +70,7 @@ func VerifDisqualifyCacheEntry(byArch map[string][]NamedIndex) (found bool, pkgs
 	defer globalDisqualifyCache.Unlock()
 	indexes := slices.Concat(slices.Collect(maps.Values(byArch))...)
 	slices.SortFunc(indexes, func(a, b NamedIndex) int { return strings.Compare(a.Name(), b.Name()) })
-	dq := globalDisqualifyCache.find(indexes)
+	dq := globalDisqualifyCache.find(indexes, byArch)
 	if dq == nil {
 		return false, nil
 	}
